@@ -182,13 +182,21 @@ SIZES3 = {
 }
 
 
-def cont3d(base, work, size, yaw="y0", quick=False):
+PLACES3 = {
+    "in": "in {reg}",
+    "offs": "at (new Point in {reg}) offset by (0.3, 0, 0.1)",
+    "offl": "at (new Point in {reg}) offset by (-3, 0, 0)",
+    "offr": "at (new Point in {reg}) offset by (Range(-0.3, 0.3), 0, Range(0, 0.2))",
+}
+
+
+def cont3d(base, work, size, yaw="y0", place="in", quick=False):
     lines = [BASES3[base], WORK3[work]]
     reg = "workspace" if work == "wsame" else "R"
-    lines.append("ego = new Object " + _join(f"in {reg}", SIZES3[size], YAWS[yaw]))
-    cur = (base, work, size, yaw)
-    default = ("box", "wbox", "unit", "y0")
-    names = ("base", "workspace", "size", "yaw")
+    lines.append("ego = new Object " + _join(PLACES3[place].format(reg=reg), SIZES3[size], YAWS[yaw]))
+    cur = (base, work, size, yaw, place)
+    default = ("box", "wbox", "unit", "y0", "in")
+    names = ("base", "workspace", "size", "yaw", "place")
     diff = [f"{n}={v}" for n, v, d in zip(names, cur, default) if v != d]
     return {
         "id": "cont3d:" + "/".join(cur),
@@ -207,7 +215,7 @@ def cont3d_programs():
     for t in q:
         p = cont3d(*t, quick=True)
         out[p["id"]] = p
-    out["cont3d:centre/wrodbox/big/y0"]["cost"] = 60  # may run into the watchdog: schedule first
+    out["cont3d:centre/wrodbox/big/y0/in"]["cost"] = 60  # may run into the watchdog: schedule first
     for size in ("unit", "tiny"):
         p = cont3d("centre", "wrodbox", size)
         out[p["id"]] = p
@@ -221,6 +229,10 @@ def cont3d_programs():
     for yaw in ("y40", "yr"):
         p = cont3d("box", "wbox", "unit", yaw)
         out.setdefault(p["id"], p)
+    for place in ("offs", "offl", "offr"):
+        for base, size in (("box", "unit"), ("box", "tiny"), ("cyl", "unit")):
+            p = cont3d(base, "wbox", size, place=place, quick=(place == "offl" and base == "box" and size == "unit"))
+            out.setdefault(p["id"], p)
     return list(out.values())
 
 
